@@ -44,6 +44,11 @@ def make(model, par):
 def numflux(m, name, L, R):
     """real numflux on arrays of states: L, R lists (per variable) of 1D float arrays"""
     with np.errstate(all="ignore"):
+        # history of the model object: a sibling call (same shapes, other states) comes first; a flux is a function of its arguments
+        try:
+            m.numflux(name, [np.array(x, dtype=float) * 1.3 for x in R], [np.array(x, dtype=float) * 0.7 for x in L])
+        except Exception:
+            pass
         out = m.numflux(name, [np.array(x, dtype=float) for x in L], [np.array(x, dtype=float) for x in R])
     return [np.array(o, dtype=float) for o in out]
 
